@@ -11,7 +11,7 @@ ID = 'C05'
 LEVEL = 'exploration'
 RUNS = {'quick': 16000, 'thorough': 300000}
 CHUNK = 50
-PROBES = ['switch_between_data_and_string', 'switch_between_data_and_string_both_threads', 'switch_between_lookup_chunks',
+PROBES = ['peer_terminate_inside_open_window', 'switch_between_data_and_string', 'switch_between_data_and_string_both_threads', 'switch_between_lookup_chunks',
           'switch_between_string_chunks', 'switch_after_start', 'switch_inside_sample', 'three_or_more_threads',
           'dropped_record']
 RULE = ('one run = 2..6 thread programs, each executed solo (baseline) and merged under 6 seeded schedules of different '
@@ -86,7 +86,21 @@ def generate(rng, index, tier):
         if allrecs:
             for _ in range(rng.randint(1, 2)):
                 faults.append({'k': 'drop_origin', 'o': rng.pick(allrecs)['o']})
-    return {'threads': threads, 'schedules': schedules, 'faults': faults}
+    # perturbation population: records that NAME another simulated thread (terminate of a peer, sampler thread-info for the
+    # tid a peer announces).  Their own rendering reads shared tables by design and is excluded from the text comparison;
+    # what they must not do is change any OTHER trace.
+    if len(threads) >= 2 and rng.chance(0.4):
+        for _ in range(rng.randint(1, 2)):
+            a, b = rng.sample(range(len(threads)), 2)
+            born = [op['ops'][0]['a'][0] for op in threads[b]['ops'] if op.get('k') == 'seq' and op['ops'] and op['ops'][0].get('name') == 'TRACE_DATA_NEWTHREAD']
+            if born and rng.chance(0.5):
+                pert = {'k': 'one', 'name': 'PERF_THD_Data', 'q': 0, 'a': [70000 + rng.randrange(99), rng.pick(born), 0, 0]}
+            else:
+                pert = {'k': 'one', 'name': 'TRACE_DATA_THREAD_TERMINATE', 'q': 0, 'a': [threads[b]['tid'], 0, 0, 0]}
+            threads[a]['ops'].insert(rng.randrange(len(threads[a]['ops']) + 1), pert)
+        per = kernel.expand_threads(threads, ids)
+        schedules = [draw_sensitive(rng, per, table) for _ in range(4)] + [kernel.draw_schedule(rng, per, 'uniform'), kernel.draw_schedule(rng, per, 'rr1')]
+    return {'threads': threads, 'schedules': schedules, 'faults': faults, 'tsmode': worlds.draw_tsmode(rng)}
 
 
 def _run(table, stream):
@@ -102,7 +116,9 @@ def _run(table, stream):
             continue
         kt = t.ktraces
         first = kt[0] if kt else ev
-        out.setdefault(first.tid, []).append([type(t).__name__, [origin.get(id(e), '?') for e in kt], str(t)])
+        # a thread-terminate record reads, by design, tables that other threads write: its text is not compared
+        text = str(t) if type(t).__name__ != 'TraceDataThreadTerminate' else ''
+        out.setdefault(first.tid, []).append([type(t).__name__, [origin.get(id(e), '?') for e in kt], text])
     return out, pn, tp
 
 
@@ -127,6 +143,7 @@ def execute(scn):
     hist = []
     base = {}
     base_pn, base_tp = {}, {}
+    tp_conflict = set()
     solo_failed = False
     for ti, p in enumerate(per):
         stream = kernel.merge([p], [])
@@ -141,13 +158,16 @@ def execute(scn):
         for tid, lst in out.items():
             base.setdefault(tid, []).extend(lst)
         base_pn.update(pn)
+        for k, v in tp.items():
+            if k in base_tp and base_tp[k] != v:
+                tp_conflict.add(k)      # two threads declare the same tid differently: last writer wins, by design
         base_tp.update(tp)
     if solo_failed:
         return {'violations': [], 'digest': digest_of(scn, hist), 'stats': stats, 'nontrivial': False, 'shape': 'solo-raised'}
     adjs = set()
     orders = set()
     for si, sched in enumerate(scn['schedules']):
-        stream = kernel.merge(per, sched)
+        stream = kernel.merge(per, sched, tsmode=scn.get('tsmode'))
         order = tuple(r['th'] for r in stream)
         orders.add(order)
         # conflict adjacencies and probes
@@ -172,6 +192,8 @@ def execute(scn):
                 bump('probe:switch_between_string_chunks')
             if a['q'] == 1:
                 bump('probe:switch_after_start')
+                if table.get(b['id']) == 'TRACE_DATA_THREAD_TERMINATE' and b['a'][0] == a['t']:
+                    bump('probe:peer_terminate_inside_open_window')
             if an in ('PERF_THD_Data', 'PERF_STK_UHdr', 'PERF_STK_UData'):
                 bump('probe:switch_inside_sample')
         if len(sw_ds) >= 2:
@@ -199,8 +221,8 @@ def execute(scn):
             diff = {k: (base_pn.get(k), pn.get(k)) for k in set(base_pn) | set(pn) if base_pn.get(k) != pn.get(k)}
             viols.append({'tag': 'learned-names-differ', 'sig': 'pids_names',
                           'detail': 'schedule %d: pid -> (solo, merged) %r' % (si, diff)})
-        if tp != base_tp:
-            diff = {k: (base_tp.get(k), tp.get(k)) for k in set(base_tp) | set(tp) if base_tp.get(k) != tp.get(k)}
+        if {k: v for k, v in tp.items() if k not in tp_conflict} != {k: v for k, v in base_tp.items() if k not in tp_conflict}:
+            diff = {k: (base_tp.get(k), tp.get(k)) for k in set(base_tp) | set(tp) if base_tp.get(k) != tp.get(k) and k not in tp_conflict}
             viols.append({'tag': 'learned-threads-differ', 'sig': 'threads_pids',
                           'detail': 'schedule %d: tid -> (solo, merged) %r' % (si, diff)})
         hist.append([si, len(stream), sorted((str(k), len(v)) for k, v in out.items())])
